@@ -58,7 +58,7 @@ impl Parameterized for ScaledInvChiSquared {
 
 impl PartialEq for ScaledInvChiSquared {
     fn eq(&self, other: &ScaledInvChiSquared) -> bool {
-        self.v == other.v
+        self.v == other.v && self.t2 == other.t2
     }
 }
 
